@@ -139,9 +139,12 @@ def case_explicit(ctx, p):
             pe = [Fraction(int(v)) for v in rng.integers(-2, 3, 3)]
         pos = [float(f) for f in pe]
         multi = sx.orbit_size([f % 1 for f in pe], ops)
-        if p["kind"] == "Uiso":
+        akind = p["kind"]
+        if p["s"] % 5 == 0:
+            akind = ["Uiso", "Uani", "none"][int(rng.integers(3))]       # mixed lists: every atom its own kind
+        if akind == "Uiso":
             adp_type, adp = "Uiso", float(rng.uniform(0.005, 0.08))
-        elif p["kind"] == "Uani":
+        elif akind == "Uani":
             beta = beta_of(c07.random_uani(rng, cell), cell)
             beta, nsite = site_symmetrise(beta, pe, ops)
             adp_type, adp = "Uani", adp_of_beta(beta, cell)
@@ -167,6 +170,8 @@ def case_explicit(ctx, p):
     thirds = c07.has_thirds(ops)
     name = "post:structure.StructureFactor = explicit P1 sum"
     hs = [np.array(gen.hkl(rng, 8)) for _ in range(p["nh"])] + [np.array([0, 0, 0])]
+    true_cell = [float(x) for x in cell]
+    cell = [float(x) for x in cell] if p["s"] % 2 else np.array(cell, float)     # the caller's own cell object, used for every call
     for h in hs:
         tol = c07.tol_of(scale, h, thirds) + 1e-9 * scale
         try:
@@ -191,7 +196,7 @@ def case_explicit(ctx, p):
     scaled = [dict(a, occ=a["occ"] * k) for a in spec]
     F2 = c07.F(ctx, h, cell, key, scaled, o.nsymop, disper)
     mon.check("derived:F is linear in occupancy", abs(F2 - k * F0) <= tol, residual=abs(F2 - k * F0) / scale, observed=F2, expected=k * F0)
-    if p["kind"] == "Uiso":
+    if all(a["adp_type"] == "Uiso" for a in spec):
         Gs = oracle.recip_metric(cell)
         astar = np.sqrt(np.diag(Gs))
         C = Gs / np.outer(astar, astar)                # cos of the angles between reciprocal axes
@@ -200,6 +205,18 @@ def case_explicit(ctx, p):
         F3 = c07.F(ctx, h, cell, key, aniso, o.nsymop, disper)
         mon.check("derived:Uiso = equivalent anisotropic tensor", abs(F3 - F0) <= tol + 1e-9 * scale, residual=abs(F3 - F0) / scale,
                   observed=F3, expected=F0, detail=None if abs(F3 - F0) <= tol + 1e-9 * scale else {"group": key, "h": h, "cell": cell})
+    # a refinement loop on the cell: the same object that served every call above, new numbers
+    same_cell = bool(np.array_equal(np.asarray(cell, float), np.asarray(true_cell)))
+    mon.check("pure:structure.StructureFactor leaves the caller's cell as it was", same_cell, observed=None if same_cell else cell, expected=None if same_cell else true_cell)
+    f = 1.0 + float(rng.uniform(0.01, 0.05))
+    for n_ in range(3):
+        cell[n_] *= f                                  # isotropic expansion keeps the metric conforming
+    for hh in hs[:3]:
+        want = F_ref(table, ops, [float(x) for x in cell], spec, hh, disper)
+        got = c07.F(ctx, hh, cell, key, spec, o.nsymop, disper)
+        tol5 = c07.tol_of(scale, hh, thirds) + 1e-9 * scale
+        mon.check("derived:F follows a cell object that was updated in place", abs(got - want) <= tol5, residual=abs(got - want) / scale,
+                  observed=got, expected=want, detail=None if abs(got - want) <= tol5 else {"group": key, "h": hh, "cell": cell})
     still = [dict(a, adp_type="Uiso", adp=0.0) for a in spec]
     F4 = c07.F(ctx, [0, 0, 0], cell, key, still, o.nsymop, disper)
     want = sum(a["occ"] * a["multi"] * complex(f_of(table, a["el"], 0.0) + ((disper or {}).get(a["el"]) or [0, 0])[0],
